@@ -70,7 +70,7 @@ def f32b(x):
 
 
 def extra(binary, build, tier, rng):
-    n = 300 if tier == "quick" else 6000
+    n = 4000 if tier == "quick" else 60000
     reqs = []
     for _ in range(n):
         kind = rng.choice(["i8", "u8", "i16", "u16", "i32", "u32", "i64", "u64", "isize", "usize", "uf32", "uf64", "bern", "exp32", "exp64",
@@ -80,6 +80,14 @@ def extra(binary, build, tier, rng):
             from .gen_int import TYPES, random_range
             b, L, s = TYPES[kind]
             lo, hi, _ = random_range(rng, b, s)
+            if rng.chance(1, 2):
+                # the stored (base, range) pair at its representational corners: spans of exactly half the type (the sign bit of a signed
+                # `range` field), one less / one more, the whole type, one value
+                tlo, thi = (-(1 << (b - 1)), (1 << (b - 1)) - 1) if s else (0, (1 << b) - 1)
+                cnt = rng.choice([1 << (b - 1), (1 << (b - 1)) - 1, (1 << (b - 1)) + 1, 1 << b, (1 << b) - 1, 1, 2])
+                lo = rng.choice([tlo, 0, -1 if s else 1, thi - cnt + 1, rng.range(tlo, thi - cnt + 1)])
+                lo = max(tlo, min(lo, thi - cnt + 1))
+                hi = lo + cnt - 1
             reqs.append("serdist kind=%s lo=%d hi=%d n=2 words=%s" % (kind, lo, hi, words))
             continue
         def fin(w):
